@@ -269,3 +269,54 @@ Example C13_handle_calls_during_join_example :
   log (bg (fst c)) = [EBodyDone 0; EJoinRet 0 0; EBodyDone 1; EIntrAt 1 IPSuspendPost true; EIntrReq 2 1] /\
   hlog (fst c) = [HObserved 2 0 0 true] /\ hlk (fst c) 0 0 = None.
 Proof. exact witness_unlocked_returns. Qed.
+
+(* ================= join() returns, over the handle-lock layer (Proofs/JoinLockProgress.v, round p13a) =================
+   C13_join_returns re-stated for the layer run [ljrun] (the source's locking shape, read from thread.cpp): Model/Join.v
+   plus the owner of every handle's mtx_, the release before join()'s wait and the re-lock after it as steps of their
+   own, spinning on a lock that is not free, and third parties (threads that are not tasks of the base model) calling
+   joinable/get_id/native_handle/... (HObs), detach (HDetach — also on a handle whose owner is inside join() on it),
+   interrupt (HIntr, HIntrId) on handles they do not own, at any time.  [lstuck c]: no thread can take a step that
+   changes the state (spinning and suspended threads do not move).  Hypothesis as for the base theorem:
+   [acyclic_targets tgt h0 n] (a handle that is valid INITIALLY refers to a task created later than its owner).
+   In every reachable layer-stuck state, for every task count, program, third-party call list and schedule:
+   nobody is blocked in join(), every task has terminated (and has no ~unlock_guard re-lock pending), no handle lock
+   is owned, and every third party has made all its calls. *)
+From Pika Require Import Proofs.JoinLockProgress.
+
+Theorem C13_join_returns_over_lock_layer : forall tgt h0 n progs hprogs sched, acyclic_targets tgt h0 n ->
+  let c := ljrun join_unlocks_before_wait tgt h0 n progs hprogs sched in
+  lstuck join_unlocks_before_wait tgt c ->
+  (forall t, blocked (ag (bg (fst c)) t) = false) /\
+  (forall t, t < n -> pc (bl (snd c t)) = PDone /\ relock (snd c t) = None) /\
+  (forall o k, hlk (fst c) o k = None) /\
+  (forall t, pc (bl (snd c t)) = PIdle -> calls_returned (snd c t) = true).
+Proof. exact join_returns_over_lock_layer. Qed.
+Print Assumptions C13_join_returns_over_lock_layer.
+
+(* without acyclicity, over the layer: a thread that is blocked in a layer-stuck state sits in join()'s suspension on
+   a handle that was valid initially and whose target is not a task at all or is itself blocked (in a join) — never
+   on a target that has finished or could still run, and never because of a handle lock *)
+Theorem C13_join_blocked_only_on_blocked_target_over_lock_layer : forall tgt h0 n progs hprogs sched,
+  let c := ljrun join_unlocks_before_wait tgt h0 n progs hprogs sched in
+  lstuck join_unlocks_before_wait tgt c ->
+  forall t, blocked (ag (bg (fst c)) t) = true ->
+    exists k d, pc (bl (snd c t)) = PJoinWake k d /\ h0 t k = true /\
+                (pc (bl (snd c (tgt t k))) = PIdle \/ blocked (ag (bg (fst c)) (tgt t k)) = true).
+Proof. exact layer_join_blocked_only_on_blocked. Qed.
+Print Assumptions C13_join_blocked_only_on_blocked_target_over_lock_layer.
+
+(* non-vacuity: the hypotheses hold (C13_join_returns_hyps: acyclic_targets chain_tgt chain_h0 3) on the chain 0 joins
+   1 joins 2 with a third party (thread 3) that calls joinable() on task 0's handle, detach()es task 0's handle WHILE
+   task 0 is suspended inside join() on it, and interrupt()s task 2 through task 1's handle; a layer-stuck state is
+   reached with all tasks terminated, both joins returned, all calls made *)
+Example C13_join_returns_over_lock_layer_example :
+  let c := ljrun join_unlocks_before_wait chain_tgt chain_h0 3 chain_progs lc_hprogs lc_sched in
+  lstuck join_unlocks_before_wait chain_tgt c /\
+  pc (bl (snd c 0)) = PDone /\ pc (bl (snd c 1)) = PDone /\ pc (bl (snd c 2)) = PDone /\
+  calls_returned (snd c 3) = true /\
+  In (EJoinRet 0 0) (log (bg (fst c))) /\ In (EJoinRet 1 0) (log (bg (fst c))) /\ In (EIntrReq 3 2) (log (bg (fst c))) /\
+  hlog (fst c) = [HDetached 3 0 0; HObserved 3 0 0 true] /\
+  let c1 := ljrun join_unlocks_before_wait chain_tgt chain_h0 3 chain_progs lc_hprogs lc_sched1 in
+  blocked (ag (bg (fst c1)) 0) = true /\ blocked (ag (bg (fst c1)) 1) = true /\
+  pc (bl (snd c1 0)) = PJoinWake 0 false /\ hid (bg (fst c1)) 0 0 = false.
+Proof. exact layer_join_returns_example. Qed.
